@@ -125,6 +125,28 @@ theorem stepNormal_bw_le {s : DSt} {o : Oracle} (hs : DInv s) (ho : OracleOk o) 
   generalize bwLimit s m = lim at *
   split <;> split <;> omega
 
+/-- The same with the SILK contract in its true form: SILK's rate may lag the CURRENT frame's bandwidth
+    (a down-switch needs the transition filter), but it never exceeds the limit the settings impose. -/
+theorem stepNormal_bw_le' {s : DSt} {o : Oracle} (hs : DInv s) (ho : OracleOk o) {f : Int} (b : Int)
+    (hf : f ∈ apiSizes s.fs) (hsilk : (chain s o f b).mode = 1000 → o.silkBandwidth ≤ bwLimit s 1000) :
+    (getBandwidth (stepNormal s o f b).2.toc : Int) ≤ bwLimit s (getMode (stepNormal s o f b).2.toc) := by
+  rw [stepNormal_mode hs ho b hf, stepNormal_bandwidth hs ho b hf]
+  have hle := bwOf_le hs ho f b
+  rw [← chain_mode, ← chain_bandwidth] at hle
+  have hr := bwOf_range hs ho f b
+  rw [← chain_bandwidth] at hr
+  unfold tocBandwidth
+  consts
+  generalize (chain s o f b).mode = m at *
+  generalize (chain s o f b).bandwidth = bw at *
+  by_cases hm : m = 1000
+  · subst hm
+    have := hsilk rfl
+    generalize bwLimit s 1000 = lim at *
+    split <;> split <;> omega
+  · generalize bwLimit s m = lim at *
+    split <;> split <;> omega
+
 /-! ### Low-budget ("PLC frame") packets -/
 
 def lowTable2 : Bool :=
